@@ -219,6 +219,8 @@ def run(tier, seed):
                 continue
             laws += ['=SUM(%s,%s)' % (tx, ty), '=SUM(%s)+SUM(%s)' % (tx, ty), '=COUNT(%s,%s)' % (tx, ty), '=COUNT(%s)+COUNT(%s)' % (tx, ty)]
         twin_sheets_law(chk, rng, b)
+        if b == 0:
+            falsy_overrides_law(chk, b)
         if special:
             text_is_ignored_law(chk, rng, book, b)
         lo = realcode.eval_formulas(laws, values, extra_sheets=[(book.title1, book.data[1])], min_rows=per, min_fcol=book.w[0] + 2)
@@ -284,6 +286,20 @@ def text_is_ignored_law(chk, rng, book, b):
         if x != y:
             chk.violation({'why': 'an aggregate over an area changes when a TEXT cell of the area (one that looks like an error value) is replaced by another text',
                            'formula': f, 'with_error_like_text': x, 'with_other_text': y, 'stream': 'text-is-ignored'})
+
+
+def falsy_overrides_law(chk, b):
+    """a cell overridden with 0 / 0.0 is a number for every aggregate, exactly as if the workbook held that 0"""
+    forms = ['=COUNT(A1:A3)', '=MIN(A1:A3)', '=MAX(A1:A3)', '=AVERAGE(A1:A3)', '=SUM(A1:A3)', '=COUNTBLANK(A1:A3)', '=COUNT(A1:A2,A3)', '=MIN(A1,A2:A3)']
+    for zero in (0, 0.0):
+        edited = realcode.eval_formulas(forms, {(0, 0): zero, (0, 1): -2, (0, 2): 8}, min_fcol=3)
+        overridden = realcode.eval_formulas(forms, {(0, 0): 5, (0, 1): -2, (0, 2): 8}, overrides={(0, 0): zero}, min_fcol=3)
+        for f, a, o in zip(forms, edited, overridden):
+            chk.count('law:falsy-override')
+            chk.seen(('falsy', b, f, repr(zero)))
+            if a != o:
+                chk.violation({'why': 'an aggregate over a cell overridden with zero differs from the workbook that holds the zero', 'formula': f, 'override': repr(zero),
+                               'overridden': o, 'edited_by_hand': a, 'stream': 'falsy-override'})
 
 
 def twin_sheets_law(chk, rng, b):
